@@ -527,17 +527,39 @@ func pagedCase(r *rand.Rand, o genOpts) c16In {
 	// forced page breaks before top-level blocks in normal flow (break-before applies to those only),
 	// and only where the page already holds in-flow content: a forced break at the top of a page
 	// that holds nothing but out-of-flow boxes is not honoured (pagination is not C16's business)
-	remaining, inflow := npages-1, false
-	for _, rt := range roots {
+	// (every break root is itself in-flow content of its page, so the candidates are independent)
+	var cands []int
+	inflow := false
+	for i, rt := range roots {
 		in := !rt.abs() && rt.Flt == ""
-		if in && rt.Disp == "block" && inflow && remaining > 0 && r.Intn(100) < 60 {
-			rt.BB = true
-			remaining--
+		if in && rt.Disp == "block" && inflow {
+			cands = append(cands, i)
 		}
 		inflow = inflow || in
-		if rt.BB {
-			inflow = true
+	}
+	if npages > 1 && len(cands) == 0 && len(roots) > 1 {
+		// make the document breakable: its first top-level box that is not fixed becomes an in-flow
+		// block, and so does the last one
+		for i, rt := range roots {
+			if !rt.fixed() && rt.Disp != "inline" {
+				rt.Pos, rt.Flt, rt.Disp = "", "", "block"
+				if rt.Z != nil && r.Intn(2) == 0 {
+					rt.Pos = "relative"
+				}
+				for k := len(roots) - 1; k > i; k-- {
+					if l := roots[k]; !l.fixed() && l.Disp != "inline" {
+						l.Pos, l.Flt, l.Disp = "", "", "block"
+						cands = append(cands, k)
+						break
+					}
+				}
+				break
+			}
 		}
+	}
+	r.Shuffle(len(cands), func(a, b int) { cands[a], cands[b] = cands[b], cands[a] })
+	for k := 0; k < npages-1 && k < len(cands); k++ {
+		roots[cands[k]].BB = true
 	}
 	multi := pageCount(roots) > 1
 	sanitizePaged(roots, multi)
